@@ -21,7 +21,7 @@ CHECKS.update({
         engine="LLSym",
         technique="bounded symbolic execution of the real C++ DP from LLVM IR (clang -O1) with state merging at post-dominators; final obligations (optimality vs every bipartition/transmission sequence, witness attains cost, unflagged alleles agree with every column optimum, no reachable assert/throw) decided by z3 in linear integer arithmetic against a definition-level oracle; counter-examples replayed on a native g++ build and judged by brute force",
         text="Per instance shape (read x column incidence, pedigree, genotype mode) ALL allele patterns, weights, recombination costs and likelihoods within the stated ranges are covered at once; the claim is 'holds for every input of every enumerated shape', nothing beyond the shapes.",
-        note="Trusted: clang/LLVM 14 IR as the meaning of the source, the LLSym interpreter and its libstdc++ externals (validated on every run by evaluating the merged symbolic result on random inputs against the native twin), z3, the short oracle. Outside: coverage > 3, > 6 columns, > 4 reads, weights >= 64, quartets, core.pyx marshalling.",
+        note="Trusted: clang/LLVM 14 IR as the meaning of the source, the LLSym interpreter and its libstdc++ externals (validated on every run by evaluating the merged symbolic result on random inputs against the native twin), z3, the short oracle. Outside: coverage > 3 (hence anything that depends on the width of the bipartition index, e.g. > 2^16 bipartitions per column), > 6 columns, > 4 reads, weights >= 64, quartets, core.pyx marshalling.",
         design_ref="DESIGN.md §2.3, §4 C01",
     ),
     "C02": dict(
@@ -51,7 +51,7 @@ CHECKS.update({
     "C06": dict(
         engine="PySym + DeCy",
         technique="bounded symbolic execution (PySym/z3) of ReadSetReader.read and everything below it - variants.py, vcf.py normalisation, the DeCy translations of _variants.pyx and align.pyx - with symbolic DNA (reference, inserted and substituted bases); the read and its canonical CIGAR are derived from (reference, variants, carried alleles); every path replayed through the real variants.py, the rebuilt compiled _variants/align/core and real pysam.AlignedSegment objects",
-        text="Exhaustive within the bounds: reference <= 7 (thorough 10) bases, one or two variants of every kind (SNV, MNP, 1-2 base insertion/deletion, padded records, multi-allelic), clips, =/X, N skips, mate pairs in all orientations, overhang 0-2 (3). Clauses: never the other allele; nothing for non-overlapped variants; allele found with a reference; found without one for SNVs and unshiftable indels.",
+        text="A substitution whose bases all lie inside the skipped bases of an N operator counts as not overlapped (no allele may be recorded). Exhaustive within the bounds: reference <= 7 (thorough 10) bases, one or two variants of every kind (SNV, MNP, 1-2 base insertion/deletion, padded records, multi-allelic), clips, =/X, N skips, mate pairs in all orientations, overhang 0-2 (3). Clauses: never the other allele; nothing for non-overlapped variants; allele found with a reference; found without one for SNVs and unshiftable indels.",
         note="Trusted: duck-typed alignment + in-memory reader (validated by the replay through real AlignedSegments), core model, SymStr, DeCy. Seven genuine defects were found; four are repaired in /repo, three stay as known findings (--overhang 0 x2, neighbouring carried indel in the re-alignment window: each needs a design decision in allele detection). Outside: default overhang 10, affine/k-mer re-alignment, supplementary alignments, P operator.",
         design_ref="DESIGN.md §4 C06, §9",
     ),
@@ -93,7 +93,7 @@ CHECKS.update({
     "C15": dict(
         engine="PySym",
         technique="bounded symbolic execution (PySym/z3) of force_genotypes (likelihoods arbitrary extended reals), aggregate_results, compute_cut_positions and phase_single_individual with the heuristic stages replaced by arbitrary outputs of the right shape; replay on the real modules, plus a concrete scenario on the real scipy",
-        text="Ploidy 2-4, <= 3 alleles, <= 4 positions: allele multiset after forcing equals the genotype; phase sets are intervals named by their first position. Cluster editing, threading and reordering heuristics (double-scored C++/ILP) are NOT claimed.",
+        text="Sub-check phase_block: phase_single_block incl. the recursive sub-instance call with clustering / threading / reordering replaced by their contracts (threading returns genotype-conforming haplotypes iff genotypes are trusted); the block result must carry the input genotype at every position. Ploidy 2-4, <= 3 alleles, <= 4 positions: allele multiset after forcing equals the genotype; phase sets are intervals named by their first position. Cluster editing, threading and reordering heuristics (double-scored C++/ILP) are NOT claimed.",
         note="Trusted: binom/log stubs, core model Read/ReadSet. The VCF writing stage is claimed by C04.",
         design_ref="DESIGN.md §4 C15, §9",
     ),
@@ -145,7 +145,7 @@ CHECKS.update({
     "C13": dict(
         engine="PySym",
         technique="bounded symbolic execution (PySym/z3) of run_unphase/unphase_header against the pysam model, applied twice (idempotence), and of unphase(phase(x)) vs unphase(x) using the real writer; every path replayed through the real CLI function on a materialised VCF",
-        text="<= 3 records x <= 2 samples, ploidy 0 (no GT) to 4 per call, alleles <= 2, every missing pattern, phased bit, HP/PS/PQ present or not.",
+        text="<= 3 records x <= 2 samples, ploidy 0 (no GT) to 4 per call, alleles <= 2, every missing pattern, phased bit, HP/PS/PQ present or not; plus genotypes at and beyond the limits of whatshap.core.Genotype (allele index 15-17, ploidy 14-16).",
         note="Trusted: pysam model. The three crashes found were repaired in /repo (23ba0a4).",
         design_ref="DESIGN.md §4 C13, §9",
     ),
